@@ -302,6 +302,7 @@ pub fn reconstruct(pic: &SymPicture, reference: Option<&Planes>) -> Result<Recon
         let (col, row) = (i % mbw, i / mbw);
         let mut cur = [[0i32; 2]; 4];
         let kind = match &mb {
+            SymMb::Raw(_) => return Err("picture contains raw fault-injection bits".into()),
             SymMb::NotCoded => None,
             SymMb::Coded { kind, .. } => Some(*kind),
         };
